@@ -21,6 +21,10 @@ import readerlib as R        # noqa: E402
 G.silence_logs()
 
 CH = [(G.quote_path("g", "a"), 2), (G.quote_path("g", "b"), 3), (G.quote_path("h", "c"), 10)]
+# float channels: their "other type" is the float-with-unit type of the same width, which has the SAME NumPy dtype
+# (a consistency check comparing NumPy dtypes instead of TDMS types cannot see that change)
+CHF = [(G.quote_path("g", "a"), 9), (G.quote_path("g", "b"), 10)]
+OTHER_TYPE = {2: 4, 3: 4, 4: 3, 9: 0x19, 10: 0x1A, 0x19: 9, 0x1A: 10}
 ENC = ["full", "prev", "nodata", "unlisted"]
 
 
@@ -43,7 +47,7 @@ class Counter:
         return (self.v % (1 << (8 * sz))).to_bytes(sz, "little")
 
 
-def build_stream(choice, nch, chunk_pattern, endian_pattern, with_props, type_change_at=None):
+def build_stream(choice, nch, chunk_pattern, endian_pattern, with_props, type_change_at=None, chans=None):
     """choice: list of seg options -> (segs, spec_error or None, offending path)"""
     segs = []
     st = G.SpecState()
@@ -56,14 +60,14 @@ def build_stream(choice, nch, chunk_pattern, endian_pattern, with_props, type_ch
         else:
             entries = []
             for ci in range(nch):
-                p, dt = CH[ci]
+                p, dt = (chans or CH)[ci]
                 props = [G.Prop(b"k%d" % ci, 3, struct.pack("<l", 100 * si + ci))] if with_props else []
                 en = encs[ci]
                 if en == "full":
                     n = 1 + (si + ci) % 3
                     d = dt
                     if type_change_at == (si, ci):
-                        d = 4 if dt != 4 else 3
+                        d = OTHER_TYPE[dt]
                     entries.append(G.Entry(p, ("full", 20, d, 1, n, None), props))
                 elif en == "prev":
                     entries.append(G.Entry(p, "prev", props))
@@ -209,7 +213,8 @@ def main():
         if not cands:
             continue
         tc = rng2.choice(cands)
-        segs, err = build_stream(list(choice), 2, (1, 1, 2), ("<",), with_props=False, type_change_at=tc)
+        segs, err = build_stream(list(choice), 2, (1, 1, 2), ("<",), with_props=False, type_change_at=tc,
+                                 chans=CHF if done % 2 else None)
         if err is None:
             continue                       # the channel had no earlier index: not a type change
         check_stream(run, segs, err, "type_change_grid", cases, meta, want_lazy=False)
